@@ -293,6 +293,48 @@ def check_large_frame(case, ctx):
         compare_models(exp, _models(res.value), "large-frame/ref->impl")
 
 
+def check_refused_writes(case, ctx):
+    """A record the packer cannot serialise makes write() raise; the caller catches that and keeps writing. What is on
+    disk afterwards is still an instance of the format: the reference codec decodes it (every record frame preceded by
+    its definition) to exactly the records whose write() returned."""
+    from flow.record import RecordStreamWriter
+    from props.C01 import _poisoned
+
+    seq = [(m, False) for m in case["seq"]]
+    for pos, j in sorted(case["refused"], key=lambda x: -x[0]):
+        seq.insert(pos, (_poisoned(case["seq"][j]), True))
+    built = impl(lambda: [gen.build_any_record(m) for m, _ in seq])
+    if not built.ok:
+        ctx.cls("discarded:constructor-raised:" + built.type)
+        return
+    fp = io.BytesIO()
+    w = RecordStreamWriter(fp)
+    written = []
+    for (m, poison), r in zip(seq, built.value):
+        res = impl(w.write, r)
+        if poison and res.ok:
+            ctx.cls("discarded:unserialisable-record-was-accepted")
+            return
+        if not poison:
+            if not res.ok:
+                raise Violation("refused-writes/good-write-raised/" + res.type, "write of a serialisable record raised %r" % (res,))
+            written.append(r)
+    impl(w.flush)
+    data = fp.getvalue()
+    ctx.cls("refused:%d" % len(case["refused"]))
+    if written:
+        ctx.nontriv()
+    exp = impl(_models, written)
+    if not exp.ok:
+        raise RuntimeError("harness: cannot model written records: %r" % (exp,))
+    try:
+        _, got = refcodec.decode_stream(data)
+    except refcodec.FormatError as e:
+        raise Violation("refused-writes/format/" + str(e).split(" ")[0][:30], "after a refused write the reference decoder rejects "
+                        "the stream: %s" % e)
+    compare_models(exp.value, got, "refused-writes/impl->ref")
+
+
 def many_type_cases(tier):
     ns = [257, 300, 1100, 4200] if tier != "thorough" else [257, 300, 1100, 4200, 17000, 66000]
     return [{"types": n, "direction": d} for n in ns for d in ("impl->ref", "ref->impl")]
@@ -369,6 +411,12 @@ def colliding_ref_cases(tier):
             for c in colliding_cases(tier) if len({m.p["desc"][0] for m in c["seq"]}) > 1]
 
 
+def _refused_case():
+    from props.C01 import refused_write_case
+
+    return refused_write_case()
+
+
 def parts(tier):
     return [
         Part("impl-to-ref", check_impl_to_ref, strategy=st.fixed_dictionaries({"seq": gen.sequence_spec()}),
@@ -381,4 +429,5 @@ def parts(tier):
         Part("golden", check_golden, cases=golden_cases, exhaustive=True),
         Part("large-frames", check_large_frame, cases=large_cases, exhaustive=True),
         Part("many-types", check_many_types, cases=many_type_cases, exhaustive=True),
+        Part("refused-writes", check_refused_writes, strategy=_refused_case(), examples=(60, 1500)),
     ]
